@@ -107,9 +107,10 @@ def isStamped (today : Date) (old : List NoteState) (n : NoteState) : Bool :=
     | some o => !sameNote n o && n.mdate != today
 
 /-- the indexed body after stamping -/
-def stampedBody (todayShort : Str) (o n : NoteState) : Str :=
+def stampedBody (todayShort : Str) (_o n : NoteState) : Str :=
   let l := n.body.dropWhile (fun c => c == ' ' || c == '\t' || c == '\n' || c == '\r' || c == '\x0b' || c == '\x0c')
-  let oldBody := if o.mdate == n.cdate then l else joinSp ((splitOn ' ' l).drop 1)
+  -- the stamp to replace is recognised in the note's current text (first word a short date), not in the old index row
+  let oldBody := if !Query.isShortDateSpec ((splitOn ' ' l).headD []) then l else joinSp ((splitOn ' ' l).drop 1)
   todayShort ++ [' '] ++ oldBody
 
 /-! ### `FileManager` -/
